@@ -92,7 +92,8 @@ class World:
 
         def _capture(cell, queue, servers):
             world.queues.append([[a.name, (-1 if a.final_rank == scheduler._UNPLACED_RANK
-                                           else int(a.final_rank))] for a in queue])
+                                           else int(a.final_rank)), bool(a.server)]
+                                 for a in queue])
             return orig(cell, queue, servers)
         p = mock.patch.object(scheduler.Cell, '_find_placements', _capture)
         p.start()
@@ -142,7 +143,9 @@ class World:
             self.cell.partitions[label] = scheduler.Partition(label=label)
         for name, a in scn['allocs'].items():
             # Exactly as loader.load_allocations does it.
-            alloc = self.cell.partitions[a['label']].allocation.get_sub_alloc(name)
+            alloc = self.cell.partitions[a['label']].allocation
+            for part in name.split('/'):
+                alloc = alloc.get_sub_alloc(part)
             alloc.update([float(x) for x in a['reserved']], a['rank'], a.get('adj', 0),
                          a.get('maxutil'))
             alloc.set_traits(mask(a.get('traits', [])))
@@ -270,33 +273,73 @@ class World:
                 order=int(app.global_order) - ORDER0)
         groups = {g: dict(count=int(ig.count), available=sorted(int(x) for x in ig.available))
                   for g, ig in cell.identity_groups.items()}
+        allocs = {}
+        for n, al in self.allocs.items():
+            allocs[n] = dict(rank=int(al.rank), adj=int(al.rank_adjustment), reserved=ivec(al.reserved),
+                             maxutil=(-1 if al.max_utilization == float('inf')
+                                      else int(al.max_utilization)),
+                             label=al.label or '')
         return dict(clock=self.v.clock, servers=servers, buckets=buckets, apps=apps,
-                    groups=groups)
+                    groups=groups, allocs=allocs)
 
 
 def replay(scn, history):
     """history: list of (event, args).  Returns list of trace lines; line 0 is the
-    initial state.  A line carries ev, args, post; Cycle lines add queues,
-    placement; an exception in the code under test is recorded as exc."""
+    initial state.  A line carries ev, args, post, h (number of history events
+    consumed); Cycle lines add queues, placement; an exception in the code under
+    test is recorded as exc.
+
+    Two composite history events (C02): ('Quiesce', []) runs cycles until one
+    changes nothing (at most 6; each is an ordinary judged Cycle line) and
+    ('Probe', [a, p]) submits instance a and runs the probe cycle (line
+    ProbeCycle with fields probe and quiet)."""
     w = World(scn)
     lines = []
-    try:
-        lines.append(dict(ev='Init', args=[], post=w.project()))
-        for ev, args in history:
-            line = dict(ev=ev, args=list(args))
-            try:
-                w.apply(ev, args)
-            except Exception as e:  # pylint: disable=broad-except
-                line['exc'] = '%s: %s' % (type(e).__name__, e)
-                line['post'] = lines[-1]['post']
-                lines.append(line)
-                break
-            line['post'] = w.project()
-            if ev == 'Cycle':
-                line['queues'] = w.queues
-                line['placement'] = [
-                    [n, b or '', rel(eb), a or '', rel(ea)] for n, b, eb, a, ea in w.placement]
+    quiet = False
+
+    def step(ev, args, h, shown=None, extra=None):
+        line = dict(ev=shown or ev, args=list(args), h=h)
+        try:
+            w.apply(ev, args)
+        except Exception as e:  # pylint: disable=broad-except
+            line['exc'] = '%s: %s' % (type(e).__name__, e)
+            line['post'] = lines[-1]['post']
             lines.append(line)
+            return False
+        line['post'] = w.project()
+        if ev == 'Cycle':
+            line['queues'] = w.queues
+            line['placement'] = [
+                [n, b or '', rel(eb), a or '', rel(ea)] for n, b, eb, a, ea in w.placement]
+        if extra:
+            line.update(extra)
+        lines.append(line)
+        return True
+
+    try:
+        lines.append(dict(ev='Init', args=[], h=0, post=w.project()))
+        for h, (ev, args) in enumerate(history, 1):
+            if ev == 'Quiesce':
+                quiet = False
+                for _ in range(6):
+                    if not step('Cycle', [], h):
+                        break
+                    if all(p[1] == p[3] and p[2] == p[4] for p in lines[-1]['placement']):
+                        quiet = True
+                        break
+                if 'exc' in lines[-1]:
+                    break
+            elif ev == 'Probe':
+                if not step('Submit', args, h):
+                    break
+                if not step('Cycle', [], h, shown='ProbeCycle',
+                            extra=dict(probe=args[0], quiet=quiet)):
+                    break
+                quiet = False
+            else:
+                quiet = False
+                if not step(ev, args, h):
+                    break
     finally:
         w.close()
     return lines
